@@ -308,6 +308,39 @@ def item_refs(item):
     raise ValueError('unknown item kind %r' % (k,))
 
 
+def normalise(case):
+    """Keeps every case harmless whatever the generators' faults did to it: nothing is ever appended to a shell
+    command line (arguments of a reference to a program that is - or may be - a shell command are dropped).
+    Idempotent; the result is what is rendered, interpreted and run."""
+    import copy
+    case = copy.deepcopy(case)
+    prog_defs = [it for ph in ITEM_PHASES for it in case['items'].get(ph, [])
+                 if it.get('k') == 'def' and it.get('t') == 'program']
+    shellish = set()
+    changed = True
+    while changed:
+        changed = False
+        for it in prog_defs:
+            v = it['v']
+            if it['n'] not in shellish and (v.get('c') == 'shell' or (v.get('c') == 'symref' and v.get('ref') in shellish)):
+                shellish.add(it['n'])
+                changed = True
+
+    def walk(x):
+        if isinstance(x, dict):
+            if x.get('c') == 'shell' or (x.get('c') == 'symref' and x.get('ref') in shellish):
+                x['a'] = []
+            for k in sorted(x):
+                walk(x[k])
+        elif isinstance(x, list):
+            for y in x:
+                walk(y)
+
+    walk(case['items'])
+    walk(case.get('act'))
+    return case
+
+
 def usages(case):
     """-> [(phase, index-in-phase | None for act, item | None)] in *execution* order."""
     out = []
@@ -490,6 +523,7 @@ class _Evaluator:
         self.out = out
         self.regexes = []  # REGEX strings met by soft_scan since the last reset
         self.env = {}  # C08_* environment variables set so far
+        self.prog_out = False  # the text just produced is the unprocessed output of a program
 
     # ---- data ----
     def sym_as_str(self, name):
@@ -616,8 +650,10 @@ class _Evaluator:
         for op in ops:
             if op == 'upper':
                 text = text if text is UNKNOWN else text.upper()
+                self.prog_out = False
             elif op == 'lower':
                 text = text if text is UNKNOWN else text.lower()
+                self.prog_out = False
             elif op[0] == 'run':
                 # "run PROGRAM": the text is given as stdin (appended to the stdin the program defines); the
                 # result is the program's output
@@ -632,6 +668,7 @@ class _Evaluator:
         if ts.get('c') == 'pgm':
             base = self.run_program(self.program_(ts['p']), consume=True)
         else:
+            self.prog_out = False
             name = None
             if 'ref' in ts:
                 name = ts['ref']
@@ -669,6 +706,11 @@ class _Evaluator:
             part = self.ts_(ts)
             stdin = UNKNOWN if (stdin is UNKNOWN or part is UNKNOWN) else stdin + part
         if extra_stdin is not None:
+            if pv['stdin'] and self.prog_out:
+                # side finding (C10/C14, not a symbol matter): a program's own stdin followed by a text that is the
+                # output of another program arrives in the opposite order (unflushed buffer + sub-process writing to
+                # the same file in _ConcatStringSourceContents.write_to) - the order is not checked here
+                stdin = UNKNOWN
             stdin = UNKNOWN if (stdin is UNKNOWN or extra_stdin is UNKNOWN) else stdin + extra_stdin
         name = pv['o']
         if pv['kind'] == 'probe':
@@ -685,6 +727,7 @@ class _Evaluator:
             else:
                 self.out.shell[name] = prev + pv['text'] + '|'
             output = ''
+        self.prog_out = True
         if consume:
             return self.apply_tt(pv['tt'], output)
         for op in pv['tt']:
@@ -779,7 +822,10 @@ class _Evaluator:
                 except re.error:
                     ok = False
             if not ok:
-                self.out.soft.append('regex-invalid')
+                # a REGEX that contains a sandbox path can be compiled only when the sandbox exists
+                sds = str(PurePosixPath(self.roots['act']).parent)
+                self.out.soft.append('regex-invalid-sandbox-path' if (v is not UNKNOWN and sds in v)
+                                     else 'regex-invalid')
         sub = {('line-matcher', 'contents'): [('text-matcher', 'm')], ('line-matcher', 'line-num'): [('integer-matcher', 'm')],
                ('text-matcher', 'equals'): [('text-source', 's')], ('text-matcher', 'num-lines'): [('integer-matcher', 'm')],
                ('text-matcher', 'every-line'): [('line-matcher', 'm')],
@@ -915,7 +961,8 @@ def evaluate(case, roots, reading=None) -> Outcome:
             saved = (out.events, out.shell)
             out.events, out.shell = {}, {}
             try:
-                act_stdin.append(ev.ts_(item['s']))
+                text = ev.ts_(item['s'])
+                act_stdin.append(UNKNOWN if ev.reach(item['s']) else text)
             finally:
                 out.events, out.shell = saved
         # 'assert' items are wrapped in `constant true || ...`: "Operands are evaluated lazily" - nothing runs
